@@ -128,7 +128,7 @@ theorem slot_counts_readers {idx : Nat → Nat} {progs : List (List (List Instr)
     (h : Reachable idx progs s) {j : Nat} {c : Caller} {k : Nat} (hj : s.cs[j]? = some c) (hk : k ∈ c.stack) :
     s.arr (idx k) = (s.R idx (idx k) : Int) ∧ (c.stack.count k : Int) ≤ s.arr (idx k) := slot_counts_readers' h hj hk
 
-/-- 200 nested re-entrant reads by one caller: every acquisition is admitted, the slot reads 200 at
+/-- 200 nested re-entrant reads by one caller: every acquisition is granted, the slot reads 200 at
 the deepest point and 0 when all blocks are left -/
 example : (run id (init (nestProgs 200)) (List.replicate (5 * 200 + 5) 0)).1.arr 0 = 200 ∧
     (run id (init (nestProgs 200)) (List.replicate (7 * 200 + 5) 0)).1.arr 0 = 0 ∧
